@@ -45,6 +45,10 @@ func c10(w *core.World, r *core.Report) {
 
 	r.Rule("R10.11", "the database rule is asked about the source database, never about the mapped one", 2)
 	ruleFilterDbOnSourceDb(w, r)
+	r.Rule("R10.14", "a configured slot range [left, right] is dropped only when left > right", 2)
+	ruleSlotRangeAccepted(w, r)
+	r.Rule("R10.13", "every snapshot entry that carries a key — continuation chunks of a split value included — carries the source database the filter judges", 1)
+	ruleEntryCarriesDb(w, r)
 	r.Rule("R10.12", "the prefix trie is read with the decomposition of the key it is written with", 1)
 	ruleTrieSameAlphabet(w, r)
 	r.Rule("R10.10", "the filter tries only grow: no existing node loses children or its terminal mark", 1)
@@ -1277,5 +1281,171 @@ func ruleFilterCmdKeyKeep(w *core.World, r *core.Report) {
 		}
 		_ = why
 		r.Check(okFlag && seenFlag, "FilterCmdKey/filtered-flag", f.Pos(), "a rejected key must mark the command as filtered (otherwise the command is forwarded unchanged)")
+	}
+}
+
+// ---------------------------------------------------------------- R10.13 every entry of a key carries the source database
+
+// ruleEntryCarriesDb: the snapshot workers decide per entry: FilterDb(entry.DB)
+// withholds a black-listed database, and -1 ("no database") is never filtered. A
+// value too large for one entry is handed out in several chunks; each chunk is an
+// entry of its own and is filtered on its own. The loader must therefore stamp
+// the current database on every entry that carries a key — a continuation chunk
+// left at -1 passes the database filter and is written into whatever database
+// the connection is in.
+func ruleEntryCarriesDb(w *core.World, r *core.Report) {
+	f := fn(w, r, "(*pkg/rdb.Loader).Next")
+	if f == nil {
+		return
+	}
+	fieldStore := func(in ssa.Instruction, name string) (ssa.Value, bool) {
+		st, ok := in.(*ssa.Store)
+		if !ok {
+			return nil, false
+		}
+		fa, ok := st.Addr.(*ssa.FieldAddr)
+		if !ok || core.FieldName(fa) != name || !strings.HasSuffix(core.TypeName(fa.X.Type()), "BinEntry") {
+			return nil, false
+		}
+		return st.Val, true
+	}
+	bad := ""
+	var pos token.Pos = f.Pos()
+	n := 0
+	okEnum := core.EnumPathsN(f.Blocks[0], 0, 400000, 1, func(p *core.Path) {
+		ret, isRet := p.End.(*ssa.Return)
+		if !isRet || ret.Parent() != f || bad != "" {
+			return
+		}
+		keyed, stamped := false, false
+		for _, in := range p.Instrs {
+			// a data entry: the one the loader remembers so that continuation chunks can refer to it
+			if st, ok := in.(*ssa.Store); ok {
+				if fa, isFa := st.Addr.(*ssa.FieldAddr); isFa && core.FieldName(fa) == "lastEntry" && strings.HasSuffix(core.TypeName(fa.X.Type()), "Loader") {
+					keyed = true
+				}
+			}
+			if v, ok := fieldStore(in, "DB"); ok {
+				if core.DependsOn(p.Resolve(v), func(x ssa.Value) bool { return core.IsFieldLoad(x, "Loader", "db") }) {
+					stamped = true
+				}
+			}
+		}
+		if !keyed {
+			return
+		}
+		n++
+		if !stamped {
+			bad, pos = "an entry that carries a key is handed out without the loader's current database: the per-entry database filter lets it through (DB -1 is never filtered) and it is written into the database the connection happens to be in", ret.Pos()
+		}
+	})
+	if !okEnum {
+		r.Undecided("Loader.Next/entry-carries-db", f.Pos(), "too many paths")
+		return
+	}
+	r.Check(bad == "" && n > 0, "Loader.Next/entry-carries-db", pos, "%s (paths handing out a keyed entry=%d)", bad, n)
+}
+
+// ---------------------------------------------------------------- R10.14 a configured slot range is dropped only when it is inverted
+
+// ruleSlotRangeAccepted: the slot rule is "key's slot in the union of the
+// configured ranges". A range [left, right] may be skipped as malformed only when
+// left > right. Skipping on left >= right drops every single-slot range written
+// as [s, s]: a black-listed slot is forwarded, a white-listed one withheld.
+func ruleSlotRangeAccepted(w *core.World, r *core.Report) {
+	n := 0
+	for _, name := range []string{"(*pkg/filter.RedisKeyFilter).InsertSlotWhiteList", "(*pkg/filter.RedisKeyFilter).InsertSlotBlackList"} {
+		f := fn(w, r, name)
+		if f == nil {
+			continue
+		}
+		// the loop over the configured ranges: the innermost loop around the insertion, in this function or in
+		// a helper it hands the list to
+		var head *ssa.BasicBlock
+		for _, g := range reachableFuncs(f) {
+			if g != f && !(core.Transparent != nil && core.Transparent(g)) {
+				continue
+			}
+			for _, s := range core.SitesNamed(g, false, "(*pkg/filter.RangeList).InsertSlotInList") {
+				if s.Instr.Parent() != g {
+					continue
+				}
+				var at ssa.Instruction = s.Instr
+				for depth := 0; depth < 4 && core.LoopHeadOf(at.Block()) == nil && at.Parent() != f; depth++ {
+					cs := callSitesOf(w, at.Parent())
+					if len(cs) == 0 {
+						break
+					}
+					at = cs[0]
+				}
+				if h := core.LoopHeadOf(at.Block()); h != nil {
+					head = h
+				}
+			}
+		}
+		if head == nil {
+			r.Undecided(shortName(name)+"/range-accepted", f.Pos(), "the loop over the configured ranges was not found")
+			continue
+		}
+		elem := func(p *core.Path, v ssa.Value, k int64) bool {
+			ld, ok := core.Unwrap(p.Resolve(v)).(*ssa.UnOp)
+			if !ok || ld.Op != token.MUL {
+				return false
+			}
+			ia, ok := ld.X.(*ssa.IndexAddr)
+			if !ok {
+				return false
+			}
+			c, isK := core.ConstInt(ia.Index)
+			return isK && c == k
+		}
+		isLen := func(v ssa.Value) bool {
+			c, ok := core.Unwrap(v).(*ssa.Call)
+			return ok && isBuiltin(c, "len")
+		}
+		bad := ""
+		var pos token.Pos = f.Pos()
+		two, skipped := 0, 0
+		okEnum := core.EnumPathsN(head, 0, 200000, 1, func(p *core.Path) {
+			if bad != "" || !p.Holds(token.EQL, isLen, isConstInt(2)) {
+				return
+			}
+			two++
+			for _, s := range pathSites(p) {
+				if strings.HasSuffix(s.Name, "RangeList).InsertSlotInList") {
+					return
+				}
+			}
+			skipped++
+			inverted := false
+			for _, fct := range p.Conds {
+				c, ok := core.FactCmp(fct)
+				if !ok {
+					continue
+				}
+				if (c.Op == token.GTR && elem(p, c.X, 0) && elem(p, c.Y, 1)) || (c.Op == token.LSS && elem(p, c.X, 1) && elem(p, c.Y, 0)) {
+					inverted = true
+				}
+			}
+			if !inverted {
+				bad = "a two-element range is skipped on a path that did not establish left > right: a range such as [s, s] (one slot) is dropped from the list"
+				for _, fct := range p.Conds {
+					if fct.If != nil && fct.If.Pos().IsValid() {
+						pos = fct.If.Pos()
+					} else if fct.Cond != nil && fct.Cond.Pos().IsValid() {
+						pos = fct.Cond.Pos()
+					}
+				}
+			}
+		})
+		if !okEnum {
+			r.Undecided(shortName(name)+"/range-accepted", f.Pos(), "too many paths")
+			continue
+		}
+		n++
+		r.Check(bad == "" && two > skipped, shortName(name)+"/range-accepted", pos, "%s (paths with a two-element range=%d, of them skipping=%d)", bad, two, skipped)
+	}
+	if n == 0 {
+		r.Fail("slot-lists/range-accepted", token.NoPos, "the slot list builders were not found")
 	}
 }
